@@ -25,8 +25,8 @@ class Agg:
 
 class LazyEnum:
     """input value of enum type with a symbolic discriminant; fields are created when the code downcasts"""
-    __slots__ = ('adt', 'd', 'depth', 'variants', 'spec', 'tag')
-    def __init__(s, adt, d, depth, spec, tag): s.adt, s.d, s.depth, s.spec, s.tag = adt, d, depth, spec, tag; s.variants = {}
+    __slots__ = ('adt', 'd', 'depth', 'variants', 'spec', 'tag', 'subst')
+    def __init__(s, adt, d, depth, spec, tag): s.adt, s.d, s.depth, s.spec, s.tag = adt, d, depth, spec, tag; s.variants = {}; s.subst = {}
     @property
     def ty(s): return s.adt.key
     def __repr__(s): return 'LazyEnum(%s,%s)' % (s.adt.name, s.tag)
@@ -306,6 +306,43 @@ def type_head(tytext):
         if t.startswith('mut '): t = t[4:]
     return refs, split_path(mt.strip_generics(t))
 
+# ----------------------------------------------------------------------------- unary-constraint propagation
+def unary_set(c):
+    """if c constrains a single uninterpreted Int/Bool constant to a finite set: (var, frozenset, positive) else None"""
+    k = c.decl().kind()
+    if k == z3.Z3_OP_EQ:
+        a, b = c.arg(0), c.arg(1)
+        if z3.is_int_value(b) and a.decl().kind() == z3.Z3_OP_UNINTERPRETED and a.num_args() == 0: return (a, frozenset([b.as_long()]), True)
+        if z3.is_int_value(a) and b.decl().kind() == z3.Z3_OP_UNINTERPRETED and b.num_args() == 0: return (b, frozenset([a.as_long()]), True)
+        return None
+    if k == z3.Z3_OP_UNINTERPRETED and c.num_args() == 0 and z3.is_bool(c): return (c, frozenset([1]), True)
+    if k == z3.Z3_OP_NOT:
+        r = unary_set(c.arg(0))
+        return None if r is None else (r[0], r[1], not r[2])
+    if k == z3.Z3_OP_OR:
+        var = None; vals = set()
+        for i in range(c.num_args()):
+            r = unary_set(c.arg(i))
+            if r is None or not r[2]: return None
+            if var is None: var = r[0]
+            elif not var.eq(r[0]): return None
+            vals |= r[1]
+        return (var, frozenset(vals), True) if var is not None else None
+    if k == z3.Z3_OP_AND:
+        var = None; neg = set()
+        for i in range(c.num_args()):
+            r = unary_set(c.arg(i))
+            if r is None or r[2]: return None
+            if var is None: var = r[0]
+            elif not var.eq(r[0]): return None
+            neg |= r[1]
+        return (var, frozenset(neg), False) if var is not None else None
+    return None
+
+def _vars_of(c, acc):
+    if c.decl().kind() == z3.Z3_OP_UNINTERPRETED and c.num_args() == 0: acc.add(c.get_id()); return
+    for i in range(c.num_args()): _vars_of(c.arg(i), acc)
+
 # ----------------------------------------------------------------------------- executor
 class Exec:
     def __init__(s, W, assumptions, trace):
@@ -313,30 +350,139 @@ class Exec:
         s.steps = 0; s.stack = []; s.assumptions = assumptions
         s.solver = W.solver
         s.solver.push()
-        for a in assumptions: s.solver.add(a)
+        s.upc = []
+        s.dom = {}; s.entangled = set()
+        for a in assumptions: s._add(a)
         s.fresh = 0; s.notes = {}
 
     def close(s): s.solver.pop()
 
+    # ---- finite domains: unary constraints on plain z3 constants are kept as Python sets (s.dom) and handed to z3 only
+    #      when the variable first occurs in a relational constraint or query ("materialised").  Pure propagation: the
+    #      answers are exactly those z3 would give, without building thousands of `d == k` terms.
+    def _ucache(s, c):
+        cache = s.W.__dict__.setdefault('ucache', {})
+        k = c.get_id(); e = cache.get(k)
+        if e is None or not e[0].eq(c):
+            u = unary_set(c); vs = set()
+            if u is None: _vars_of(c, vs)
+            e = (c, u, vs); cache[k] = e
+        return e[1], e[2]
+
+    def dom_constraint(s, vid):
+        var, kind, vals = s.dom[vid]
+        if z3.is_bool(var):
+            allowed = ({0, 1} & vals) if kind == 'in' else ({0, 1} - vals)
+            if allowed == {0, 1}: return None
+            if not allowed: return z3.BoolVal(False)
+            return var if allowed == {1} else z3.Not(var)
+        if kind == 'in':
+            vs = sorted(vals)
+            if not vs: return z3.BoolVal(False)
+            if vs[-1] - vs[0] + 1 == len(vs): return z3.And(var >= vs[0], var <= vs[-1]) if len(vs) > 1 else var == vs[0]
+            return z3.Or(*[var == x for x in vs])
+        return z3.And(*[var != x for x in sorted(vals)]) if vals else None
+
+    def materialise(s, vids):
+        for vid in vids:
+            if vid in s.dom and vid not in s.entangled:
+                c = s.dom_constraint(vid)
+                if c is not None: s.solver.add(c)
+            s.entangled.add(vid)
+
+    def _apply_unary(s, u):
+        var, vals, pos = u; vid = var.get_id(); cur = s.dom.get(vid)
+        if pos:
+            if cur is None: s.dom[vid] = (var, 'in', set(vals))
+            elif cur[1] == 'in': cur[2].intersection_update(vals)
+            else: s.dom[vid] = (var, 'in', set(vals) - cur[2])
+        else:
+            if cur is None: s.dom[vid] = (var, 'notin', set(vals))
+            elif cur[1] == 'in': cur[2].difference_update(vals)
+            else: cur[2].update(vals)
+
+    def _add(s, c):
+        """add constraint c to the path condition"""
+        if c is True: return
+        u, vs = s._ucache(c)
+        if u is not None and u[0].get_id() not in s.entangled:
+            s._apply_unary(u); s.upc.append(c); return
+        s.materialise(vs if u is None else [u[0].get_id()])
+        s.pc.append(c); s.solver.add(c)
+
+    def restrict(s, var, values):
+        """var in values (finite set) - no z3 term is built unless the variable gets entangled later"""
+        vid = var.get_id()
+        if vid in s.entangled:
+            c = z3.Or(*[var == x for x in sorted(values)]); s.pc.append(c); s.solver.add(c); return
+        s._apply_unary((var, frozenset(values), True))
+
+    def _fd_feasible(s, u):
+        var, vals, pos = u; cur = s.dom.get(var.get_id())
+        if z3.is_bool(var):
+            allowed = {0, 1}
+            if cur is not None: allowed = (allowed & cur[2]) if cur[1] == 'in' else (allowed - cur[2])
+            return bool((allowed & vals) if pos else (allowed - vals))
+        if cur is None: return bool(vals) if pos else True
+        if cur[1] == 'in': return bool(cur[2] & vals) if pos else bool(cur[2] - vals)
+        return bool(vals - cur[2]) if pos else True
+
     def feasible(s, c):
+        u, vs = s._ucache(c)
+        if u is not None and u[0].get_id() not in s.entangled:
+            s.W.fast_decisions = getattr(s.W, 'fast_decisions', 0) + 1
+            return s._fd_feasible(u)
+        s.materialise(vs if u is None else [u[0].get_id()])
         s.W.queries += 1; t = time.time()
         r = s.solver.check(c)
         s.W.solver_time += time.time() - t
         if r == z3.unknown: raise Unsupported('z3 unknown')
         return r == z3.sat
 
+    def full_pc(s):
+        """path condition as z3 formulas, including the finite-domain part"""
+        out = list(s.pc)
+        for vid in s.dom:
+            if vid in s.entangled: continue
+            c = s.dom_constraint(vid)
+            if c is not None: out.append(c)
+        return out
+
+    def choose_fd(s, var, groups, has_rest):
+        """switch on a plain (un-entangled) z3 constant.  groups: [(frozenset of values, payload)]; if has_rest the last
+        group's value set is ignored and stands for every other value."""
+        vid = var.get_id(); cur = s.dom.get(vid)
+        listed = set()
+        for vals, _ in (groups[:-1] if has_rest else groups): listed |= vals
+        def feas(i):
+            if has_rest and i == len(groups) - 1: return s._fd_feasible((var, frozenset(listed), False))
+            return s._fd_feasible((var, groups[i][0], True))
+        def take(i):
+            if has_rest and i == len(groups) - 1: s._apply_unary((var, frozenset(listed), False))
+            else: s._apply_unary((var, groups[i][0], True))
+            return groups[i][1]
+        if s.tpos < len(s.trace):
+            k = s.trace[s.tpos]; s.tpos += 1; return take(k)
+        fe = [i for i in range(len(groups)) if feas(i)]
+        s.W.fast_decisions = getattr(s.W, 'fast_decisions', 0) + len(groups)
+        if not fe: raise Infeasible()
+        prefix = s.trace[:s.tpos]
+        for alt in fe[1:]: s.pending.append(prefix + [alt])
+        s.trace.append(fe[0]); s.tpos += 1
+        return take(fe[0])
+
     def assume(s, c):
         """add a path-local constraint (e.g. range of a freshly created symbolic value)"""
         if c is True: return
         if c is False: raise Infeasible()
-        s.pc.append(c); s.solver.add(c)
+        s._add(c)
 
     def choose(s, options, exhaustive=False):
         """options: [(cond, payload)]; returns the payload of the option taken on this path"""
         if s.tpos < len(s.trace):
             k = s.trace[s.tpos]; s.tpos += 1
             c, t = options[k]
-            if c is not True: s.pc.append(c); s.solver.add(c)
+            s._add(c)
             return t
         cand = [i for i, (c, _) in enumerate(options) if c is not False]
         feas = []
@@ -350,7 +496,7 @@ class Exec:
         for alt in feas[1:]: s.pending.append(prefix + [alt])
         k = feas[0]; s.trace.append(k); s.tpos += 1
         c, t = options[k]
-        if c is not True: s.pc.append(c); s.solver.add(c)
+        s._add(c)
         return t
 
     def branch_bool(s, v):
@@ -772,6 +918,14 @@ class Exec:
                         if 0 not in seen: opts.append((z3.Not(v), term[3]))
                         elif 1 not in seen: opts.append((v, term[3]))
                     bb = s.choose(opts, exhaustive=True); continue
+                if v.num_args() == 0 and v.decl().kind() == z3.Z3_OP_UNINTERPRETED and v.get_id() not in s.entangled:
+                    gs = {}; order = []
+                    for kk, tb in term[2]:
+                        if tb not in gs: gs[tb] = set(); order.append(tb)
+                        gs[tb].add(kk)
+                    glist = [(frozenset(gs[tb]), tb) for tb in order]
+                    if term[3] is not None: glist.append((frozenset(), term[3]))
+                    bb = s.choose_fd(v, glist, term[3] is not None); continue
                 # group by target block: one fork per target
                 groups = {}; order = []
                 for kk, tb in term[2]:
@@ -823,11 +977,11 @@ def explore(W, entry, assumptions, path_limit=10**7, time_limit=None, on_path=No
         ex = Exec(W, assumptions, tr)
         try:
             try:
-                r = entry(ex); res = PathResult(list(ex.pc), 'ok', r, ex.steps, list(ex.trace), ex.notes)
+                r = entry(ex); res = PathResult(ex.full_pc(), 'ok', r, ex.steps, list(ex.trace), ex.notes)
             except Infeasible:
                 res = None
             except Panic as e:
-                res = PathResult(list(ex.pc), 'panic', str(e), ex.steps, list(ex.trace), ex.notes)
+                res = PathResult(ex.full_pc(), 'panic', str(e), ex.steps, list(ex.trace), ex.notes)
                 res.notes['stack'] = list(ex.stack[-6:])
             except RecursionError:
                 raise Limit('python recursion limit')
